@@ -242,7 +242,7 @@ theorem validated_batch_finalizes_partial (cap : Id → Nat) (st : State) (snap 
 def P : Params := ⟨fun a => if a = 2 then 2500 else 1000000, 1, 1⟩
 
 /-- validate, lock inputs, persist: what `validateSnapshotTransaction` does for a cached transaction -/
-def admit (st : State) (tx : Tx) : State :=
+def persistPending (st : State) (tx : Tx) : State :=
   (WriteTransaction (LockInputs (validate P st tx false).2 tx false).2 tx).2
 
 def btcSeen : State := { assetInfo := [(2, (2, 102))], total := [(2, 0)] }
@@ -254,14 +254,14 @@ def snapD : Snap := ⟨100, 1, 1, 11, 8, [10, 11]⟩
     2500. Each validates (against the stored total, which a pending deposit does not change), both lock and
     persist, the snapshot passes its batch rules, and `WriteSnapshot` panics in `writeTotalInAsset`. -/
 theorem validated_batch_finalizes_counterexample :
-    (validate P btcSeen d1 false).1 = true ∧ (validate P (admit btcSeen d1) d2 false).1 = true ∧
-    debugAsserts (admit (admit btcSeen d1) d2) snapD = true ∧
-    aget (admit (admit btcSeen d1) d2).topo snapD.topo = none ∧
-    (WriteSnapshot P.cap (admit (admit btcSeen d1) d2) snapD 0).1 = some .panic := by decide
+    (validate P btcSeen d1 false).1 = true ∧ (validate P (persistPending btcSeen d1) d2 false).1 = true ∧
+    debugAsserts (persistPending (persistPending btcSeen d1) d2) snapD = true ∧
+    aget (persistPending (persistPending btcSeen d1) d2).topo snapD.topo = none ∧
+    (WriteSnapshot P.cap (persistPending (persistPending btcSeen d1) d2) snapD 0).1 = some .panic := by decide
 
 /-- the same two deposits in two snapshots: the first is written, the second panics -/
 theorem validated_batch_finalizes_counterexample_sequential :
-    let s := admit (admit btcSeen d1) d2
+    let s := persistPending (persistPending btcSeen d1) d2
     (WriteSnapshot P.cap s ⟨100, 1, 1, 11, 8, [10]⟩ 0).1 = none ∧
     (WriteSnapshot P.cap (WriteSnapshot P.cap s ⟨100, 1, 1, 11, 8, [10]⟩ 0).2 ⟨101, 2, 1, 12, 9, [11]⟩ 0).1 = some .panic := by
   decide
@@ -274,9 +274,9 @@ def f2 : Tx := ⟨21, 6, [.deposit 4 6 206 7], [⟨.script, 7, [504]⟩], [], tr
     first finalization writes `ASSETINFO`; both validate and persist, the second finalization returns an error
     (fatal in `TopoWrite`). -/
 theorem conflicting_first_deposits_counterexample :
-    (validate P {} f1 false).1 = true ∧ (validate P (admit {} f1) f2 false).1 = true ∧
-    debugAsserts (admit (admit {} f1) f2) ⟨100, 1, 1, 11, 8, [20, 21]⟩ = true ∧
-    (WriteSnapshot P.cap (admit (admit {} f1) f2) ⟨100, 1, 1, 11, 8, [20, 21]⟩ 0).1 = some .err := by decide
+    (validate P {} f1 false).1 = true ∧ (validate P (persistPending {} f1) f2 false).1 = true ∧
+    debugAsserts (persistPending (persistPending {} f1) f2) ⟨100, 1, 1, 11, 8, [20, 21]⟩ = true ∧
+    (WriteSnapshot P.cap (persistPending (persistPending {} f1) f2) ⟨100, 1, 1, 11, 8, [20, 21]⟩ 0).1 = some .err := by decide
 
 def big : Tx := ⟨30, 2, [.deposit 5 2 102 3000], [⟨.script, 3000, [505]⟩], [], true, true⟩
 
@@ -285,14 +285,14 @@ def big : Tx := ⟨30, 2, [.deposit 5 2 102 3000], [⟨.script, 3000, [505]⟩],
     info yet. No interaction between transactions is needed. -/
 theorem first_deposit_above_capacity_counterexample :
     (validate P {} big false).1 = true ∧
-    debugAsserts (admit {} big) ⟨100, 1, 1, 11, 8, [30]⟩ = true ∧
-    (WriteSnapshot P.cap (admit {} big) ⟨100, 1, 1, 11, 8, [30]⟩ 0).1 = some .panic := by decide
+    debugAsserts (persistPending {} big) ⟨100, 1, 1, 11, 8, [30]⟩ = true ∧
+    (WriteSnapshot P.cap (persistPending {} big) ⟨100, 1, 1, 11, 8, [30]⟩ 0).1 = some .panic := by decide
 
 /-! ### non-vacuity of the partial theorem: one of the two deposits alone is `Ready` and is written -/
 
 def okDep : Tx := ⟨10, 2, [.deposit 1 2 102 2000], [⟨.script, 2000, [501]⟩], [], true, true⟩
 
-example : Ready P.cap (admit btcSeen okDep) okDep := by
+example : Ready P.cap (persistPending btcSeen okDep) okDep := by
   refine ⟨by decide, ?_, by decide, ?_, ?_, ?_, ?_, ?_⟩
   · intro k c ak am r e
     simp only [okDep, List.cons.injEq, Input.deposit.injEq] at e
@@ -309,6 +309,6 @@ example : Ready P.cap (admit btcSeen okDep) okDep := by
   · exact ⟨some 2000, rfl⟩
   · decide
 
-example : (WriteSnapshot P.cap (admit btcSeen okDep) ⟨100, 1, 1, 11, 8, [10]⟩ 0).1 = none := by decide
+example : (WriteSnapshot P.cap (persistPending btcSeen okDep) ⟨100, 1, 1, 11, 8, [10]⟩ 0).1 = none := by decide
 
 end Mixin.C16
